@@ -344,8 +344,25 @@ func c09Plain(body []byte) *c09Resp {
 
 // ---------------------------------------------------------------- world
 
+// c09CertMode: which signing certificates the IdP metadata lists while a "strip-keyinfo" step runs
+// ("": the IdP's one certificate; bad-first / bad-last: beside it an entry that is base64 but no certificate; two-good: a second real one).
+var c09CertMode string
+
 func c09IdpMetadata() *saml.EntityDescriptor {
 	md := idpMetadataFor(c09IdpEntity, c09IdpSSO, c09IdpSLO, []KeyPair{rsaKeys[0]}, nil, "signing")
+	if c09CertMode != "" {
+		kds := md.IDPSSODescriptors[0].KeyDescriptors
+		bad := saml.KeyDescriptor{Use: "signing", KeyInfo: saml.KeyInfo{X509Data: saml.X509Data{X509Certificates: []saml.X509Certificate{{Data: c09B64([]byte("0\x82\x01\x0anot a certificate, though it starts like a DER sequence"))}}}}}
+		switch c09CertMode {
+		case "bad-first":
+			kds = append([]saml.KeyDescriptor{bad}, kds...)
+		case "bad-last":
+			kds = append(kds, bad)
+		case "two-good":
+			kds = append(kds, saml.KeyDescriptor{Use: "signing", KeyInfo: saml.KeyInfo{X509Data: saml.X509Data{X509Certificates: []saml.X509Certificate{{Data: rsaKeys[3].CertB64()}}}}})
+		}
+		md.IDPSSODescriptors[0].KeyDescriptors = kds
+	}
 	md.IDPSSODescriptors[0].ArtifactResolutionServices = []saml.Endpoint{{Binding: saml.SOAPBinding, Location: c09IdpArt}}
 	return md
 }
@@ -516,6 +533,7 @@ type c09RespOpts struct {
 	MutResp    func(el *etree.Element)                // before the response is signed
 	PlainBytes func(assertion []byte) (plain []byte)  // replace the plaintext that gets encrypted
 	EncCipher  xmlenc.BlockCipher                     // content-encryption algorithm (nil: AES128-CBC)
+	EncKT      int                                    // key transport: 0 OAEP/SHA-1, 1 OAEP/SHA-256, 2 OAEP/SHA-512, 3 OAEP/RIPEMD-160, 4 RSA-1_5, 5 OAEP with the DigestMethod element removed
 }
 
 // c09BuildResponse renders a genuine Response of the foreign IdP at moment t0, with the
@@ -546,7 +564,7 @@ func c09BuildResponse(o c09RespOpts, t0 time.Time) *etree.Element {
 		if o.PlainBytes != nil {
 			plain = o.PlainBytes(plain)
 		}
-		asEl = c09EncryptBytesWith(plain, rsaKeys[1], o.EncCipher)
+		asEl = c09EncryptBytesWith(plain, rsaKeys[1], o.EncCipher, o.EncKT)
 		if o.MutEnc != nil {
 			asEl = o.MutEnc(asEl)
 		}
@@ -573,19 +591,40 @@ func c09BuildResponse(o c09RespOpts, t0 time.Time) *etree.Element {
 // c09EncryptBytes wraps arbitrary plaintext into saml:EncryptedAssertion for the holder of kp
 // (RSA-OAEP + AES128-CBC, as the library IdP does).
 func c09EncryptBytes(plain []byte, kp KeyPair) *etree.Element {
-	return c09EncryptBytesWith(plain, kp, nil)
+	return c09EncryptBytesWith(plain, kp, nil, 0)
 }
 
-func c09EncryptBytesWith(plain []byte, kp KeyPair, bc xmlenc.BlockCipher) *etree.Element {
-	enc := xmlenc.OAEP()
-	enc.BlockCipher = xmlenc.AES128CBC
-	if bc != nil {
-		enc.BlockCipher = bc
+func c09EncryptBytesWith(plain []byte, kp KeyPair, bc xmlenc.BlockCipher, kt int) *etree.Element {
+	mk := func(kt int) xmlenc.RSA {
+		enc := xmlenc.OAEP()
+		enc.DigestMethod = &xmlenc.SHA1
+		switch kt {
+		case 1:
+			enc.DigestMethod = &xmlenc.SHA256
+		case 2:
+			enc.DigestMethod = &xmlenc.SHA512
+		case 3:
+			enc.DigestMethod = &xmlenc.RIPEMD160
+		case 4:
+			enc = xmlenc.PKCS1v15()
+		}
+		enc.BlockCipher = xmlenc.AES128CBC
+		if bc != nil {
+			enc.BlockCipher = bc
+		}
+		return enc
 	}
-	enc.DigestMethod = &xmlenc.SHA1
-	ed, err := enc.Encrypt(kp.Cert, plain, nil)
+	ed, err := mk(kt).Encrypt(kp.Cert, plain, nil)
+	if err != nil {
+		ed, err = mk(0).Encrypt(kp.Cert, plain, nil) // e.g. the digest leaves no room for the key under this RSA modulus
+	}
 	if err != nil {
 		panic(fmt.Sprintf("harness: encrypt: %v", err))
+	}
+	if kt == 5 {
+		if dm := ed.FindElement("./KeyInfo/EncryptedKey/EncryptionMethod/DigestMethod"); dm != nil {
+			dm.Parent().RemoveChild(dm)
+		}
 	}
 	ed.CreateAttr("Type", "http://www.w3.org/2001/04/xmlenc#Element")
 	ea := etree.NewElement("saml:EncryptedAssertion")
@@ -756,6 +795,30 @@ var c09MetaShapes = []string{
 	"entitydescriptor", "entities-with-idp", "entities-without-idp", "entities-empty", "entities-nested",
 	"entitydescriptor-no-idp", "idp-no-keydescriptor", "idp-keydescriptor-no-certificate", "entitydescriptor-no-entityid",
 	"validuntil-garbage", "cacheduration-garbage", "entitydescriptor-empty",
+	"cacheduration-fraction-63", "cacheduration-fraction-64", "cacheduration-fraction-65", "cacheduration-fraction-1000", "cacheduration-huge-years", "cacheduration-max-seconds",
+	"cacheduration-negative", "cacheduration-bare-p", "cacheduration-bare-pt", "cacheduration-dot-only", "cacheduration-all-fields", "cacheduration-empty",
+	"validuntil-year-99999", "validuntil-fraction-1000", "validuntil-year-0", "validuntil-empty", "validuntil-zone-99",
+}
+
+// c09MetaTexts: lexical forms of xsd:duration / xsd:dateTime attributes (well-formed ones included) a metadata document may carry.
+var c09MetaTexts = map[string][2]string{
+	"cacheduration-fraction-63":   {"cacheDuration", "PT1." + strings.Repeat("3", 63) + "S"},
+	"cacheduration-fraction-64":   {"cacheDuration", "PT1." + strings.Repeat("3", 64) + "S"},
+	"cacheduration-fraction-65":   {"cacheDuration", "PT0." + strings.Repeat("0", 64) + "1S"},
+	"cacheduration-fraction-1000": {"cacheDuration", "PT1." + strings.Repeat("9", 1000) + "S"},
+	"cacheduration-huge-years":    {"cacheDuration", "P99999999999999999999999Y"},
+	"cacheduration-max-seconds":   {"cacheDuration", "PT9223372036854775807S"},
+	"cacheduration-negative":      {"cacheDuration", "-P1DT1S"},
+	"cacheduration-bare-p":        {"cacheDuration", "P"},
+	"cacheduration-bare-pt":       {"cacheDuration", "PT"},
+	"cacheduration-dot-only":      {"cacheDuration", "PT.S"},
+	"cacheduration-all-fields":    {"cacheDuration", "P1Y2M3DT4H5M6.789S"},
+	"cacheduration-empty":         {"cacheDuration", ""},
+	"validuntil-year-99999":       {"validUntil", "99999-12-31T23:59:59Z"},
+	"validuntil-fraction-1000":    {"validUntil", "2030-01-01T00:00:00." + strings.Repeat("1", 1000) + "Z"},
+	"validuntil-year-0":           {"validUntil", "0000-00-00T00:00:00Z"},
+	"validuntil-empty":            {"validUntil", ""},
+	"validuntil-zone-99":          {"validUntil", "2030-01-01T00:00:00+99:99"},
 }
 
 func c09BuildMetadata(shape string) []byte {
@@ -778,6 +841,9 @@ func c09BuildMetadata(shape string) []byte {
 		f(doc.Root())
 		out, _ := doc.WriteToBytes()
 		return out
+	}
+	if t, ok := c09MetaTexts[shape]; ok {
+		return edit(func(r *etree.Element) { r.CreateAttr(t[0], t[1]) })
 	}
 	switch shape {
 	case "entities-with-idp":
@@ -847,6 +913,21 @@ func c09CorruptBytes(b []byte, st *c09Step) []byte {
 		return c09RandBytes(st.Seed, st.N)
 	case "rootless-document":
 		return []byte(c09Rootless[st.Variant%len(c09Rootless)])
+	case "strip-keyinfo":
+		// KeyInfo is not signed content: anybody on the wire can drop it from a signature
+		doc := etree.NewDocument()
+		if err := doc.ReadFromBytes(b); err != nil || doc.Root() == nil {
+			return b
+		}
+		var all []*etree.Element
+		c01All(doc.Root(), &all)
+		for _, e := range all {
+			if e.Tag == "KeyInfo" && e.Parent() != nil && e.Parent().Tag == "Signature" {
+				e.Parent().RemoveChild(e)
+			}
+		}
+		out, _ := doc.WriteToBytes()
+		return out
 	case "deep-nesting":
 		if st.Variant%2 == 0 {
 			return []byte(strings.Repeat("<a>", st.N) + strings.Repeat("</a>", st.N))
@@ -878,8 +959,30 @@ func c09CorruptB64(s string, st *c09Step) string {
 }
 
 // c09StructMut returns a mutator for the to-be-signed root element (structural operators).
+// c09HostileAttrs / c09HostileValues: attributes of the message's root element whose text the consuming code parses
+// (URLs, instants, numbers, identifiers) and texts that such parsers choke on. Set before signing: the signature stays valid.
+var c09HostileAttrs = []string{"Destination", "Destination", "Destination", "AssertionConsumerServiceURL", "IssueInstant", "ID", "InResponseTo", "Version", "ProtocolBinding", "AssertionConsumerServiceIndex", "AttributeConsumingServiceIndex", "ForceAuthn", "IsPassive", "NotOnOrAfter"}
+
+var c09HostileValues = []string{
+	"https://sp.example.com/%zz", "https://sp.example.com/saml/acs%", "https://sp exa mple.com/saml/acs", "https://sp.example.com\t/saml/acs", "https://sp.example.com\x7f/saml/acs",
+	"http://[::1/saml/acs", "https://sp.example.com:port/saml/acs", "https://sp.example.com:99999999/saml/acs", "//sp.example.com/saml/acs", "sp.example.com/saml/acs", ":", "%", "?", "#",
+	"https://%41:b@sp.example.com/%", "ht!tp://sp.example.com/", "HTTPS://SP.EXAMPLE.COM/saml/acs", "https://sp.example.com/saml/acs\x00", "\xff\xfe", "\r\n",
+	"2026-13-45T99:99:99Z", "99999999-01-01T00:00:00Z", "-1", "99999999999999999999", "1e9", "0x10", "true ", "", " ",
+}
+
+func c09HostileValue(n int) string {
+	if n%(len(c09HostileValues)+1) == len(c09HostileValues) {
+		return "https://sp.example.com/" + strings.Repeat("a", 70000)
+	}
+	return c09HostileValues[n%(len(c09HostileValues)+1)]
+}
+
 func c09StructMut(st *c09Step) func(*etree.Element) {
 	switch {
+	case st.Op == "hostile-attribute":
+		return func(el *etree.Element) {
+			el.CreateAttr(c09HostileAttrs[st.Variant%len(c09HostileAttrs)], c09HostileValue(st.N))
+		}
 	case st.Op == "deep-nesting" && st.Variant%2 == 1:
 		return func(el *etree.Element) {
 			cur := el.CreateElement("Extensions")
@@ -1571,7 +1674,13 @@ func c09Mut(st *c09Step) func(*etree.Element) {
 
 // ---- response family
 
+var c09CertModes = []string{"bad-first", "bad-last", "two-good", ""}
+
 func c09ExecResponse(c *c09Ctx, st *c09Step, k c09Knobs) {
+	if st.Kind == "corrupt" && st.Op == "strip-keyinfo" {
+		c09CertMode = c09CertModes[st.Variant%len(c09CertModes)]
+		defer func() { c09CertMode = "" }()
+	}
 	spv := c09NewSP()
 	encrypt := st.Encrypt
 	if st.Kind == "corrupt" && (c09ByteOp(st.Op) || strings.HasPrefix(st.Op, "b64-")) {
@@ -1589,6 +1698,7 @@ func c09ExecResponse(c *c09Ctx, st *c09Step, k c09Knobs) {
 		case "cipher-algorithm":
 			o.Encrypt = true
 			o.EncCipher = c09CipherAlgs[st.Variant%len(c09CipherAlgs)].bc
+			o.EncKT = int(st.Seed % 6)
 			o.MutEnc = c09CipherAlg(st)
 		case "encrypted-plaintext":
 			o.Encrypt = true
@@ -1666,6 +1776,10 @@ func c09ExecResponse(c *c09Ctx, st *c09Step, k c09Knobs) {
 // ---- logout family
 
 func c09ExecLogout(c *c09Ctx, st *c09Step) {
+	if st.Kind == "corrupt" && st.Op == "strip-keyinfo" {
+		c09CertMode = c09CertModes[st.Variant%len(c09CertModes)]
+		defer func() { c09CertMode = "" }()
+	}
 	spv := c09NewSP()
 	t0 := time.Now()
 	var omit []string
@@ -2112,16 +2226,19 @@ func genTotality(g *Rng, tier string) *Plan {
 				st.Omit = []string{c09MetaShapes[2+g.Intn(len(c09MetaShapes)-2)]}
 			}
 		case "corrupt":
-			ops := []string{"truncate", "truncate", "truncate", "truncate", "truncate", "bitflip", "bitflip", "bitflip", "bitflip", "bitflip", "garbage", "garbage", "rootless-document", "rootless-document", "rootless-document", "rootless-document", "deep-nesting", "huge-attribute"}
+			ops := []string{"hostile-attribute", "hostile-attribute", "hostile-attribute", "hostile-attribute", "hostile-attribute", "truncate", "truncate", "truncate", "truncate", "truncate", "bitflip", "bitflip", "bitflip", "bitflip", "bitflip", "garbage", "garbage", "rootless-document", "rootless-document", "rootless-document", "rootless-document", "deep-nesting", "huge-attribute"}
 			st.Layer = "xml"
 			switch st.Family {
 			case "response":
-				ops = append(ops, "cipher-algorithm", "cipher-algorithm", "cipher-algorithm", "cipher-algorithm", "cipher-algorithm", "ciphervalue-short", "ciphervalue-short", "ciphervalue-short", "ciphervalue-short", "encrypted-plaintext", "encrypted-plaintext", "encrypted-plaintext", "encrypted-plaintext")
+				ops = append(ops, "strip-keyinfo", "strip-keyinfo", "strip-keyinfo", "cipher-algorithm", "cipher-algorithm", "cipher-algorithm", "cipher-algorithm", "cipher-algorithm", "ciphervalue-short", "ciphervalue-short", "ciphervalue-short", "ciphervalue-short", "encrypted-plaintext", "encrypted-plaintext", "encrypted-plaintext", "encrypted-plaintext")
 				if st.Entry == "ParseResponse/post" {
 					ops = append(ops, "b64-cut", "b64-pad", "b64-badchar")
 				}
 			case "logout", "authnrequest":
 				ops = append(ops, "b64-cut", "b64-pad", "b64-badchar", "b64-badchar")
+				if st.Family == "logout" {
+					ops = append(ops, "strip-keyinfo", "strip-keyinfo", "strip-keyinfo")
+				}
 				if c09Deflated(st.Entry) {
 					ops = append(ops, "truncate@deflate", "truncate@deflate", "bitflip@deflate", "bitflip@deflate", "garbage@deflate", "not-deflated")
 				}
@@ -2148,6 +2265,11 @@ func genTotality(g *Rng, tier string) *Plan {
 				st.N = Pick(g, 1<<16, 1<<20, 1<<20, 5<<20)
 			case "ciphervalue-short":
 				st.N = g.Intn(5)
+			case "strip-keyinfo":
+				st.Variant = g.Intn(len(c09CertModes))
+			case "hostile-attribute":
+				st.Variant = g.Intn(len(c09HostileAttrs))
+				st.N = g.Intn(len(c09HostileValues) + 1)
 			case "cipher-algorithm":
 				st.Variant = g.Intn(len(c09CipherAlgs))
 				st.N = g.Intn(len(c09CipherLens))
@@ -2319,7 +2441,7 @@ func simplifyTotality(p *Plan) []*Plan {
 				with(i, func(s *c09Step) { s.Omit[j] = to })
 			}
 		}
-		if st.Kind == "corrupt" && !(st.Op == "rootless-document" && st.Layer == "xml") && st.Op != "ciphervalue-short" && st.Op != "encrypted-plaintext" && st.Op != "cipher-algorithm" {
+		if st.Kind == "corrupt" && !(st.Op == "rootless-document" && st.Layer == "xml") && st.Op != "ciphervalue-short" && st.Op != "encrypted-plaintext" && st.Op != "cipher-algorithm" && st.Op != "strip-keyinfo" && st.Op != "hostile-attribute" {
 			with(i, func(s *c09Step) {
 				s.Op, s.Layer, s.Variant, s.Pms, s.N, s.Pm = "rootless-document", "xml", 0, nil, 0, 0
 			})
@@ -2398,7 +2520,7 @@ func simplifyTotality(p *Plan) []*Plan {
 func init() {
 	register(&Profile{
 		ID: "C09", Name: "totality", Level: "fault_enumeration",
-		Rule: "a run is either (1) a back-channel fault sequence: 1-4 artifact resolutions (ParseResponse with SAMLart) / FetchMetadata calls through a SimTransport, each with one fault kind of the enumeration {conn_err, status 401/404/500/503/302(+Location), empty, truncated(err|clean)@permille, slow(chunks x delay), stall headers|body until the client/context deadline, garbage, SOAP fault, 10 wrong envelopes, wrong InResponseTo(other|absent|previous), bad status, unsigned, wrong key, good} - every kind x position is covered and counted in extra[cov:...]; or (2) 1-3 in-flight inputs: a foreign IdP omits a sampled subset of optional elements/attributes and re-signs (Response, Assertion plaintext/encrypted in R/A/RA signing layouts, LogoutResponse, AuthnRequest, registered SP metadata, metadata documents), or the network corrupts a genuine message (truncate, bit flips, base64 cut/pad/bad char, deflate-layer damage, rootless documents, depth-10k nesting, MB-sized attribute, CipherValue of 0-4 blocks(+1), foreign plaintext under valid encryption), or a 12-300 MB deflate bomb, on every consuming entry point of SP, IdP, bundled server and metadata parser. Part (1) is enumerated, part (2) is sampled. non-trivial = the run contains at least one input that is not the genuine message / at least one injected back-channel fault; distinct = distinct abstract event log (entry, shape, parameters, expectation, outcome class); back-channel faults include a body whose Close fails, an endless chain of 307 redirects to fresh URLs (more than 200 back-channel requests in one call is a hang) and a body shorter or longer than its announced length; 30% of artifact deliveries present a well-formed type-4 artifact with endpoint index 0,1,2,3 or 65535",
+		Rule: "a run is either (1) a back-channel fault sequence: 1-4 artifact resolutions (ParseResponse with SAMLart) / FetchMetadata calls through a SimTransport, each with one fault kind of the enumeration {conn_err, status 401/404/500/503/302(+Location), empty, truncated(err|clean)@permille, slow(chunks x delay), stall headers|body until the client/context deadline, garbage, SOAP fault, 10 wrong envelopes, wrong InResponseTo(other|absent|previous), bad status, unsigned, wrong key, good} - every kind x position is covered and counted in extra[cov:...]; or (2) 1-3 in-flight inputs: a foreign IdP omits a sampled subset of optional elements/attributes and re-signs (Response, Assertion plaintext/encrypted in R/A/RA signing layouts, LogoutResponse, AuthnRequest, registered SP metadata, metadata documents), or the network corrupts a genuine message (truncate, bit flips, base64 cut/pad/bad char, deflate-layer damage, rootless documents, depth-10k nesting, MB-sized attribute, CipherValue of 0-4 blocks(+1), foreign plaintext under valid encryption), or a 12-300 MB deflate bomb, on every consuming entry point of SP, IdP, bundled server and metadata parser. Part (1) is enumerated, part (2) is sampled. non-trivial = the run contains at least one input that is not the genuine message / at least one injected back-channel fault; distinct = distinct abstract event log (entry, shape, parameters, expectation, outcome class); back-channel faults include a body whose Close fails, an endless chain of 307 redirects to fresh URLs (more than 200 back-channel requests in one call is a hang) and a body shorter or longer than its announced length; 30% of artifact deliveries present a well-formed type-4 artifact with endpoint index 0,1,2,3 or 65535; encrypted assertions use every content-encryption algorithm the library registers a decrypter for (aes128/192/256-cbc, tripledes-cbc, aes128-gcm) and six key-transport variants, with cipher values of 19 lengths; root-element attributes whose text is parsed (URLs, instants, numbers) take 30 hostile texts before signing; KeyInfo is dropped from signatures while the SP's IdP metadata lists one certificate, two, or one beside an entry that is no certificate; metadata carries 17 further xsd:duration / xsd:dateTime lexical forms (64+ fraction digits, huge years, empty, year 0)",
 		Gen:  genTotality, Exec: execTotality, Simplify: simplifyTotality,
 		RunsQuick: 3000, RunsThorough: 300000,
 		Assumptions: []string{
